@@ -1372,6 +1372,9 @@ def is_dotted_name(node):
 def compile_pattern(compiler, pattern):
     value, assignment = pattern
     if assignment is not None:
+        if mangle(assignment) == "_":
+            # As in Python, where `as _` is a syntax error.
+            compiler._syntax_error(assignment, "`_` can't be the target of `:as`")
         return compiler.scope.assign(
             asty.MatchAs(
                 value,
